@@ -370,7 +370,15 @@ def job_vocgrow(payload):
     tdir = os.path.join(common.REPO, "tests")
     f = os.path.join(tdir, "typedef.o")
     dw = [("entry name", "d:" + common.hx(f)), ("entry ?TAG_typedef @AT_type length", "d:" + common.hx(f)), ("[entry] length", "d:" + common.hx(f)), ("entry offset", "d:" + common.hx(f))]
-    for t, inp in [(t, "") for t in texts] + (dw if os.path.exists(f) else []):
+    # texts made of core words only -- they compile both times -- applied to values only the complete vocabulary knows how to handle
+    A1, A2 = "q:" + common.hx("0 10 aset"), "q:" + common.hx("0 5 aset 7 9 aset")
+    over = [("length", A1), ("elem", A1), ("relem", A1), ("?empty", A1), ("!empty", A1), ("add", A2), ("sub", A2), ("dup add length", A1), ("[elem] length", A1),
+            ("dup ?eq", A1), ('"%s"', A1), ("type", A1), ("(|A| A length, [A elem])", A1), ("?(length == 10)", A1), ("if ?empty then 1 else length", A1)]
+    if os.path.exists(f):
+        D1 = "d:" + common.hx(f) + ",q:" + common.hx("[entry attribute] elem ?1")
+        D2 = "d:" + common.hx(f) + ",q:" + common.hx("[entry] elem ?2")
+        over += [("value", D1), ("[value]", D1), ("dup value", D1), ('"%s"', D1), ("type", D2), ('"%s"', D2), ("dup ?eq", D2)]
+    for t, inp in [(t, "") for t in texts] + (dw if os.path.exists(f) else []) + over:
         try:
             a = d.run(t, inp=inp, fuel=zcheck.FUEL, max=zcheck.MAXRES)
             b = d.run(t, inp=inp, fuel=zcheck.FUEL, max=zcheck.MAXRES, voc="grow")
